@@ -21,7 +21,7 @@ BOUNDS = {
     "quick": "job shop: shapes 2x2, 3x2, 2x3 (jobs x ops) with 8 machine assignments each (repeated machines inside a job included), rules "
              "fifo/spt/lpt/mwkr/random, local search off and on (max_iter<=2); durations unbounded Ints >= 0. VRPTW operators: 3 customers (one "
              "needing 2 vehicles) + depot, 2 vehicles, EVERY bookkeeping-valid pre-state (route membership and order), each of the 8 exported "
-             "operators once; distances (symmetric, non-negative), demands, capacities, windows, service times symbolic; vrp_objective on the same states",
+             "operators once; distances (symmetric, non-negative), demands, capacities, windows, service times symbolic; vrp_objective on the same states and on states of 2 customers / 3 vehicles with a customer that requires three vehicles",
     "thorough": "job shop 3x3 and max_iter 3; VRPTW with 4 customers (two multi-vehicle) and 3 vehicles (VERIF_SEED-sampled pre-states)",
 }
 OUTSIDE = "more customers/vehicles/jobs than the bound; full solve_vrptw runs (covered only through its operators and objective); float rounding"
@@ -241,10 +241,10 @@ def items(tier, rng):
             for rule in ("fifo", "spt", "lpt", "mwkr", "random"):
                 if q and mi >= 4 and rule in ("lpt", "mwkr"):
                     continue
-                out.append({"name": "js_%s_%s" % (shape, rule), "harness": "h_jobshop", "max_paths": cap,
+                out.append({"name": "js_%s_%s" % (shape, rule), "harness": "h_jobshop", "max_paths": cap, "spread": rng.randrange(1 << 30),
                             "params": {"machines": machines, "rule": rule, "local_search": False, "max_iter": 0}})
             for rule in (("spt", "random") if mi % 2 == 0 else ("fifo",)):
-                out.append({"name": "js_ls_%s_%s" % (shape, rule), "harness": "h_jobshop", "max_paths": cap,
+                out.append({"name": "js_ls_%s_%s" % (shape, rule), "harness": "h_jobshop", "max_paths": cap, "spread": rng.randrange(1 << 30),
                             "params": {"machines": machines, "rule": rule, "local_search": True, "max_iter": 2 if q else 3}})
     out.append({"name": "vrp_base", "harness": "h_vrp_base", "params": {"n_cust": 3, "n_veh": 2}})
     multi = {"1": 2}
@@ -253,21 +253,31 @@ def items(tier, rng):
         for op in OPS:
             if q and op in HEAVY and si % 3 != 0:
                 continue
-            out.append({"name": "vrp_" + op, "harness": "h_vrp_op", "max_paths": 120 if q else 1200,
+            out.append({"name": "vrp_" + op, "harness": "h_vrp_op", "max_paths": 120 if q else 1200, "spread": rng.randrange(1 << 30),
                         "params": {"op": op, "n_cust": 3, "n_veh": 2, "multi": multi, "routes": routes, "unassigned": sorted(un)}})
             if op in ("sync_aware_insertion", "sync_removal", "route_removal") or not q:
                 # stale / arbitrary sync_assignments entry for the multi-vehicle customer
-                out.append({"name": "vrp_stale_" + op, "harness": "h_vrp_op", "max_paths": 120 if q else 1200,
+                out.append({"name": "vrp_stale_" + op, "harness": "h_vrp_op", "max_paths": 120 if q else 1200, "spread": rng.randrange(1 << 30),
                             "params": {"op": op, "n_cust": 3, "n_veh": 2, "multi": multi, "routes": routes, "unassigned": sorted(un),
                                        "sync": {"1": [0, 1]}}})
         if si % (4 if q else 1) == 0:
             out.append({"name": "vrp_objective", "harness": "h_vrp_objective",
                         "params": {"n_cust": 3, "n_veh": 2, "multi": multi, "routes": routes, "unassigned": sorted(un)}})
+    # a customer that needs THREE vehicles: the synchronisation spread is max - min over all visits, whichever vehicle is early or late
+    tri = [(r, u) for (r, u) in enumerate_states(2, 3, {1: 3}) if sum(1 in x for x in r) >= 2]
+    full = [t for t in tri if sum(1 in x for x in t[0]) == 3]
+    for routes, un in (full + rng.sample([t for t in tri if t not in full], 3) if q else tri):
+        out.append({"name": "vrp_objective3", "harness": "h_vrp_objective",
+                    "params": {"n_cust": 2, "n_veh": 3, "multi": {"1": 3}, "routes": routes, "unassigned": sorted(un)}})
     if not q:
+        for routes, un in rng.sample(tri, 12):
+            for op in OPS:
+                out.append({"name": "vrp3_" + op, "harness": "h_vrp_op", "max_paths": 1500, "spread": rng.randrange(1 << 30),
+                            "params": {"op": op, "n_cust": 2, "n_veh": 3, "multi": {"1": 3}, "routes": routes, "unassigned": sorted(un)}})
         big = list(enumerate_states(4, 3, {1: 2, 2: 2}))
         for routes, un in rng.sample(big, 60):
             for op in OPS:
-                out.append({"name": "vrp4_" + op, "harness": "h_vrp_op", "max_paths": 1500,
+                out.append({"name": "vrp4_" + op, "harness": "h_vrp_op", "max_paths": 1500, "spread": rng.randrange(1 << 30),
                             "params": {"op": op, "n_cust": 4, "n_veh": 3, "multi": {"1": 2, "2": 2}, "routes": routes, "unassigned": sorted(un)}})
     return out
 
